@@ -443,6 +443,7 @@ type JobResult struct {
 	Functions  map[string]int64  `json:"functions_encoded"`
 	SolverSec  float64           `json:"solver_s"`
 	Queries    int               `json:"solver_queries"`
+	OneShot    int               `json:"oneshot_queries"`
 	WallSec    float64           `json:"wall_s"`
 	Truncated  bool              `json:"truncated"`
 	Error      string            `json:"error,omitempty"`
